@@ -196,6 +196,19 @@ CLAIMED = {
         "dynamic symbolic execution of the real Python code (vx) + z3, havoc-the-copy frame condition (one inductive step)",
         "DESIGN.md section 4 C06",
     ),
+    "C18": (
+        "model_checking",
+        "to_dict / from_dict of CCD, CMOS, MKID and APD, the property classes, Photon, Detector.save/load dispatch and the ASDF backend "
+        "executed with symbolic (valid) property fields, symbolic 2x2 bucket contents, symbolic charge-cluster cells, and symbolic flags for "
+        "which containers are initialised (8 patterns per task quick, all 64 thorough): field-by-field structural equality written in the "
+        "harness. The asdf module is a stand-in store (contract: returns the tree it was given); every path witness is additionally replayed "
+        "through the real ASDF library on disk. The load_detector model, called directly and inside a pipeline, must replace the running "
+        "detector's buckets by the file's (arbitrary) contents and later models must see them.",
+        "HDF5 is outside (h5py not installed); scene / processed-data / 3-D photon contents are concrete; the real ASDF library is exercised "
+        "by concrete witness replays only.",
+        "dynamic symbolic execution of the real Python code (vx) + z3 equalities, per-path witness replay through the real ASDF library",
+        "DESIGN.md section 4 C18",
+    ),
 }
 
 NOT_APPLICABLE = {
